@@ -147,7 +147,9 @@ func runOne(id, tier, repo, verif string) (status int) {
 				c.fatalf("checker panic: %v\n%s", r, debug.Stack())
 			}
 		}()
+		bdd.errors = nil
 		f(c, w)
+		reportCondErrors(c)
 		if c.hasAlarms() {
 			// normalisation fallback (inline.go): helpers that are new relative to known_funcs.txt are inlined into an
 			// in-memory copy and the same rules are applied to that copy
@@ -158,6 +160,7 @@ func runOne(id, tier, repo, verif string) (status int) {
 					w2 := &World{c: c2, repo: repo, all: tier == "thorough", overlay: ir.Overlay}
 					resetGlobals()
 					f(c2, w2)
+					reportCondErrors(c2)
 					if !c2.hasAlarms() && len(c2.Obs) > 0 {
 						c2.Extra["normalised"] = map[string]interface{}{
 							"explanation": "the check did not pass on the sources as written; it passes on an in-memory copy in which calls of helpers that are new relative to known_funcs.txt are replaced by the helpers' bodies (behaviour-preserving code motion, see inline.go); the obligations below are those of the copy",
@@ -180,6 +183,7 @@ func runOne(id, tier, repo, verif string) (status int) {
 							c.loadKnown(filepath.Join(verif, "KNOWN_FINDINGS.txt"))
 							w = &World{c: c, repo: repo, all: true}
 							f(c, w)
+							reportCondErrors(c)
 						}
 					}
 				}
@@ -193,4 +197,17 @@ func runOne(id, tier, repo, verif string) (status int) {
 		c.fatalf("no obligations were generated for %s", id)
 	}
 	return c.finish()
+}
+
+// reportCondErrors: a condition space that could not be built means some rule decided (or skipped) an entailment
+// without its premises; whatever the rule did with it, the run is undecided.
+func reportCondErrors(c *Ctx) {
+	seen := map[string]bool{}
+	for _, e := range bdd.errors {
+		if !seen[e] {
+			seen[e] = true
+			c.undecided("engine.cond", e, "-", "a reaching-condition space could not be built: "+e)
+		}
+	}
+	bdd.errors = nil
 }
